@@ -103,7 +103,7 @@ def gen_recipe(rng):
     if rng.random() < 0.35 or fn == 'COUNTBLANK':
         for _ in range(rng.randint(1, 3)):
             a = '%s%d' % (rng.choice(COLS), rng.randint(1, 5))
-            ov[a] = rng.choice(['', '', 0, 7, 2.5, 'x', True])
+            ov[a] = rng.choice(['', '', 0, 7, 2.5, 'x', True, False, 1, 1.0])
         stored = [a for a, v in sheets[0][1].items() if isinstance(v, (int, float, dt.datetime)) and not isinstance(v, str)]
         for a in rng.sample(stored, min(len(stored), rng.randint(1, 3))) if fn == 'COUNTBLANK' else []:
             ov[a] = ''                                     # a stored number / boolean / date cleared by the override
@@ -126,7 +126,7 @@ def gen_recipe(rng):
     sep = rng.choice([',', ';'])
     return {'kind': 'formula', 'fn': fn, 'formula': '=%s(%s)' % (fn, sep.join(texts)),
             'sheets': [[t, {a: C.jenc(v) for a, v in cells.items()}] for t, cells in base_sheets], 'args': args, 'mix': mix,
-            'ov': [[a, C.jenc(v)] for a, v in ov.items()]}
+            'ov': [[a, C.jenc(v)] for a, v in ov.items()], 'pre': bool(ov) and rng.random() < 0.5}
 
 
 def coq_args(args):
@@ -140,11 +140,28 @@ def coq_args(args):
     return C.clist(out)
 
 
+
+def twin(v):
+    """a value that is == v but of another type (1 / True / 1.0, 0 / False / 0.0), or None when there is none"""
+    if isinstance(v, bool):
+        return int(v)
+    if isinstance(v, int) and v in (0, 1):
+        return bool(v)
+    if isinstance(v, int):
+        return float(v)
+    if isinstance(v, float) and v == int(v) and abs(v) < 2 ** 53:
+        return int(v)
+    return None
+
+
 def make_case(rc):
     if rc['kind'] == 'formula':
         sheets = [(t, {a: C.jdec(v) for a, v in cells.items()}) for t, cells in rc['sheets']]
         ovs = [I.Cell(0, *I.a1(a), C.jdec(v)) for a, v in rc.get('ov', [])]
-        out = I.eval_formula(rc['formula'], addr='H9', sheets=sheets, overrides=ovs or None)
+        pre = None
+        if rc.get('pre'):
+            pre = [I.Cell(0, *I.a1(a), twin(C.jdec(v)) if twin(C.jdec(v)) is not None else 77) for a, v in rc['ov']]
+        out = I.eval_formula(rc['formula'], addr='H9', sheets=sheets, overrides=ovs or None, pre_overrides=pre)
     else:   # direct helper call on a flat list
         rt = I.runtime()
         fl = C.jdec(rc['list'], empty)
